@@ -192,6 +192,16 @@ func (h *Host) CreateClient(ctx sdk.Context, trust xibctmtypes.Fraction, height 
 	}
 }
 
+// CreateClientNamed installs a tendermint client under an arbitrary name / chain id.
+func (h *Host) CreateClientNamed(ctx sdk.Context, name, chainID string, height uint64, ts time.Time, next *tmtypes.ValidatorSet, appHash []byte) {
+	cs := xibctmtypes.NewClientState(chainID, xibctmtypes.DefaultTrustLevel, Period*1000, Period*2000, Drift, clienttypes.NewHeight(clienttypes.ParseChainID(chainID), height),
+		commitmenttypes.GetSDKSpecs(), commitmenttypes.MerklePrefix{KeyPrefix: []byte("xibc")}, 0)
+	cons := &xibctmtypes.ConsensusState{Timestamp: ts, Root: appHash, NextValidatorsHash: next.Hash()}
+	if err := h.C.App.XIBCKeeper.ClientKeeper.CreateClient(ctx, name, cs, cons); err != nil {
+		panic(err)
+	}
+}
+
 // Update runs the message-level validation and then the real keeper update.
 func (h *Host) Update(ctx sdk.Context, hdr *xibctmtypes.Header) error {
 	if err := hdr.ValidateBasic(); err != nil {
